@@ -145,8 +145,9 @@ func (c *chain) next(plain bool) (*lib.Bundle, error) {
 		diff, classes = g.GenDiff(g.HeadState(), num, version)
 	}
 	if !plain {
-		// storage entries that do not change the slot (same value rewritten, zero written to an empty slot)
-		// leave no history entry on the legacy backend; count the blocks that have one, or drop them (clean)
+		// a storage entry that writes zero to an EMPTY slot leaves no history entry on the legacy backend (a
+		// non-zero value rewritten does: the trie returns the old leaf); count the blocks that have one, or
+		// drop them (clean)
 		prev := g.HeadState()
 		noop := false
 		for a, kv := range diff.StorageDiffs {
@@ -155,7 +156,7 @@ func (c *chain) next(plain bool) (*lib.Bundle, error) {
 				if pc, ok := prev.Contracts[a]; ok {
 					cur = pc.Storage[k]
 				}
-				if cur.Equal(v) {
+				if cur.IsZero() && v.IsZero() {
 					if c.clean {
 						delete(kv, k)
 					} else {
